@@ -5,7 +5,7 @@ use renoir::operator::window::CountWindow;
 use renoir::operator::StreamElement;
 
 use crate::driver::{PropSpec, Tier};
-use crate::e2::{drive, loop_scenario, script_stream, sequences, El};
+use crate::e2::{counted_stream, drive, drive_aligned, loop_scenario, script_stream, sequences, El};
 use crate::explore::{Fail, Scenario};
 
 /// What one iteration must emit, in order, for the interleaved arrival sequence `seq` of
@@ -176,6 +176,86 @@ fn check_case(hist: &[usize], n: usize, s: usize, exact: bool, agg: Agg, timesta
     None
 }
 
+/// Histories that also contain watermarks and batch flushes (symbols 3 and 4) between the
+/// elements of a timestamped stream: control elements change nothing, and every complete group is
+/// emitted before the source is asked for the element after its N-th one.
+fn check_case_ctl(hist: &[usize], n: usize, s: usize, exact: bool) -> Option<Fail> {
+    let mut script: Vec<El<(i64, i64)>> = vec![];
+    // per iteration: (key, value, position in the script)
+    let mut iters: Vec<Vec<(i64, i64, usize)>> = vec![vec![]];
+    for (i, &h) in hist.iter().enumerate() {
+        match h {
+            2 => {
+                script.push(StreamElement::FlushAndRestart);
+                iters.push(vec![]);
+            }
+            3 => script.push(StreamElement::Watermark(i as i64 - 1)),
+            4 => script.push(StreamElement::FlushBatch),
+            _ => {
+                let kv = (h as i64, i as i64 + 1);
+                iters.last_mut().unwrap().push((kv.0, kv.1, i));
+                script.push(StreamElement::Timestamped(kv, i as i64));
+            }
+        }
+    }
+    let (st, counter) = counted_stream(script);
+    let w = st.to_keyed().window(CountWindow::new(n, s, exact));
+    let out = drive_aligned(w.map(|v: Vec<i64>| v).0.verif_into_chain().chain, &counter);
+    let mut got: Vec<Vec<(i64, Vec<i64>, usize)>> = vec![vec![]];
+    let mut terminated = false;
+    for (c, e) in &out {
+        match e {
+            StreamElement::Item((k, v)) | StreamElement::Timestamped((k, v), _) => got.last_mut().unwrap().push((*k, v.clone(), *c)),
+            StreamElement::FlushAndRestart => got.push(vec![]),
+            StreamElement::Terminate => terminated = true,
+            _ => {}
+        }
+    }
+    let descr = || format!("N={n} S={s} exact={exact} timestamped history={:?} (0/1 = element of key 0/1, 2 = end of iteration, 3 = watermark, 4 = FlushBatch)", hist);
+    if !terminated {
+        return Some(Fail::new("c12-no-terminate", format!("{}: no Terminate", descr())));
+    }
+    got.pop();
+    let n_iters = if hist.last() == Some(&2) { iters.len() - 1 } else { iters.len() }.max(1);
+    if got.len() != n_iters {
+        return Some(Fail::new("c12-iterations", format!("{}: output has {} iterations, input has {}", descr(), got.len(), n_iters)));
+    }
+    for (it, seq) in iters.iter().take(n_iters).enumerate() {
+        let kv: Vec<(i64, i64)> = seq.iter().map(|x| (x.0, x.1)).collect();
+        let (during, at_end) = reference(&kv, n, s, exact);
+        let g = &got[it];
+        if g.len() != during.len() + at_end.len() {
+            return Some(Fail::new(
+                if g.len() > during.len() + at_end.len() { "c12-extra-result" } else { "c12-missing-result" },
+                format!("{}: iteration {it} emitted {:?}, expected {:?} then (any order) {:?}", descr(), g, during, at_end),
+            ));
+        }
+        for (i, (k, grp)) in during.iter().enumerate() {
+            if g[i].0 != *k || g[i].1 != *grp {
+                return Some(Fail::new("c12-wrong-group", format!("{}: iteration {it} result {i} is {:?}, expected key {k} group {:?}", descr(), g[i], grp)));
+            }
+            // the group's last element is its N-th: it sits at script position p, so the source
+            // has handed out exactly p + 1 elements when the group comes out
+            let last = *grp.last().unwrap();
+            let p = seq.iter().find(|x| x.1 == last).unwrap().2;
+            if g[i].2 != p + 1 {
+                return Some(Fail::new(
+                    "c12-late-result",
+                    format!("{}: iteration {it} group {:?} of key {k} came out after {} source elements, its last element is number {}", descr(), grp, g[i].2, p + 1),
+                ));
+            }
+        }
+        let mut tail: Vec<(i64, Vec<i64>)> = g[during.len()..].iter().map(|x| (x.0, x.1.clone())).collect();
+        tail.sort();
+        let mut exp = at_end.clone();
+        exp.sort();
+        if tail != exp {
+            return Some(Fail::new("c12-wrong-flush", format!("{}: iteration {it} flushed {:?}, expected {:?}", descr(), tail, exp)));
+        }
+    }
+    None
+}
+
 fn build(tier: Tier) -> Vec<Scenario> {
     let maxlen = match tier {
         Tier::Quick => 10,
@@ -185,6 +265,33 @@ fn build(tier: Tier) -> Vec<Scenario> {
     for n in 1..=5usize {
         for s in 1..=n {
             for exact in [true, false] {
+                {
+                    let len = if tier == Tier::Quick { 7 } else { 9 };
+                    out.push(loop_scenario(
+                        format!("C12/N{n}-S{s}-exact{exact}-control-len{len}"),
+                        format!("all histories over {{key0, key1, end-of-iteration, watermark, FlushBatch}} of length <= {len} for size {n} slide {s} exact {exact}, timestamped, with the emission point of every group"),
+                        Arc::new(move || {
+                            let mut cases = 0;
+                            let mut nontrivial = 0;
+                            let mut fail = None;
+                            for l in 0..=len {
+                                sequences(5, l, |h| {
+                                    if fail.is_some() {
+                                        return;
+                                    }
+                                    cases += 1;
+                                    // non-trivial: a control element between the elements of a key that reaches a complete group
+                                    let c0 = h.iter().filter(|x| **x == 0).count();
+                                    if c0 >= n && h.iter().any(|x| *x >= 3) {
+                                        nontrivial += 1;
+                                    }
+                                    fail = check_case_ctl(h, n, s, exact);
+                                });
+                            }
+                            (cases, nontrivial, fail)
+                        }),
+                    ));
+                }
                 for (agg, ts) in [
                     (Agg::Collect, false),
                     (Agg::Collect, true),
@@ -245,7 +352,7 @@ pub fn spec() -> PropSpec {
     PropSpec {
         id: "C12",
         build,
-        rule: "for every 1<=S<=N<=5, exact and non-exact, aggregators {collect, sum, count, first, last, max}, timestamped or not: ALL histories over {element of key 0, element of key 1, end of iteration} up to the length bound are fed to the real keyed count-window operator (built through the public API) and compared with the reference sliding groups [jS, jS+N) per key (emission position, order, content, end-of-iteration flush, no mixing of keys or iterations); a case is non-trivial when key 0 receives at least N elements",
+        rule: "for every 1<=S<=N<=5, exact and non-exact, all 13 aggregators, timestamped or not: ALL histories over {element of key 0, element of key 1, end of iteration} up to the length bound (and, for the collecting aggregator on timestamped streams, over the same alphabet plus {watermark, FlushBatch} up to length 7/9, where also the emission point is checked: a complete group comes out before the source is asked for the element after its N-th one) are fed to the real keyed count-window operator (built through the public API) and compared with the reference sliding groups [jS, jS+N) per key (emission position, order, content, end-of-iteration flush, no mixing of keys or iterations); a case is non-trivial when key 0 receives at least N elements",
         assumptions: &["histories up to the stated length; two keys"],
         exhaustive_when_uncapped: true,
         budget_s: (50, 900),
